@@ -1028,7 +1028,7 @@ func corpusC14() []*Bundle {
 func init() {
 	register(&Property{
 		ID: "C14", Plain: true, Level: "exploration",
-		Rule:   "cases = rapid-generated (table 0-6 rows, 1-6 select items mixing plain/ASYNC/SPIN/SPINASYNC/ONCE/immediate-qualified stub calls, placement top/derived/CTE/CTE chain/row-scoped subquery/subquery inside a derived table or CTE/UNION branch/EXISTS; GLOBAL calls of the same functions; ONCE with a NULL result; colliding output aliases; registration sequences in which a name becomes immediate; batching functions that wait for their sibling invocations over 2-130 rows; latency pattern, schedule strategy np/walk/pct/sync, map-order policy) plus a fixed corpus; one OS process per simulated run; a case counts as non-trivial when >=2 tasks were runnable at some yield, or a fault fired, or a non-identity map order was applied; distinct = distinct case-file hash; differential cases: 17 statement shapes in which a later stage consumes the ASYNC column (DISTINCT, ORDER BY, join over a derived table, FUSE, AWAIT over a nested select, LIMIT, second Exec) run with and without the qualifier; array-of-arrays sources; re-registration histories",
+		Rule:   "cases = rapid-generated (table 0-6 rows, 1-6 select items mixing plain/ASYNC/SPIN/SPINASYNC/ONCE/immediate-qualified stub calls, placement top/derived/CTE/CTE chain/row-scoped subquery/subquery inside a derived table or CTE/UNION branch/EXISTS; GLOBAL calls of the same functions; ONCE with a NULL result; colliding output aliases; registration sequences in which a name becomes immediate; batching functions that wait for their sibling invocations over 2-130 rows; latency pattern, schedule strategy np/walk/pct/sync, map-order policy) plus a fixed corpus; one OS process per simulated run; a case counts as non-trivial when >=2 tasks were runnable at some yield, or a fault fired, or a non-identity map order was applied; distinct = distinct case-file hash; differential cases: 17 statement shapes in which a later stage consumes the ASYNC column (DISTINCT, ORDER BY, join over a derived table, FUSE, AWAIT over a nested select, LIMIT, second Exec) run with and without the qualifier; array-of-arrays sources; re-registration histories; failing rows (returned error, panic(error), panic(string)) of the query and of nested evaluations (row-scoped subquery at two depths, EXISTS, inner arrays) with calls in flight: none still runs or starts once Exec has reported the failure; ASYNC calls made from a join's ON (incl. the inner join of a three-table join) are complete at return; 28 differential shapes",
 		Corpus: corpusC14, Gen: genC14, Eval: evalC14, QuickChecks: 1500,
 		Assumptions: []string{
 			"stub user functions (fx/fid/imm) stand in for user code; their latency is simulated Sleep",
